@@ -49,14 +49,26 @@ def toposort2(data):
 
     # add items that are listed as dependencies but not as dependents to data
     extra_items_in_deps = reduce(set.union, data.values()) - set(data.keys())
-    data.update(dict([(item,set()) for item in extra_items_in_deps]))
+
+    # items with equal sort keys keep the order they have in ``data``, so that
+    # the result never depends on the iteration order of a set of objects
+    # (i.e. on memory addresses). For the extra items, that's the position of
+    # their first dependent.
+    rank = {}
+    for i, dep in enumerate(data.values()):
+        for item in dep:
+            rank.setdefault(item, i)
+
+    data.update([(item, set()) for item in sorted(extra_items_in_deps,
+                                    key=lambda x: (_sort_key(x), rank[x]))])
 
     while True:
-        ordered = set(item for item,dep in data.items() if len(dep) == 0)
+        ordered = [item for item, dep in data.items() if len(dep) == 0]
         if len(ordered) == 0:
             break
         yield sorted(ordered, key=_sort_key)
-        data = dict([(item, (dep - ordered)) for item,dep in data.items()
-                                                        if item not in ordered])
+        done = set(ordered)
+        data = dict([(item, (dep - done)) for item, dep in data.items()
+                                                           if item not in done])
 
     assert not data, "A cyclic dependency exists amongst\n%s" % pformat(data)
